@@ -302,7 +302,7 @@ def run_grammar(spec, prop, R, tier, batch, stats):
         elif prop == "C10":
             for d in [mind - 1, mind, mind + 2]:
                 if d >= 0:
-                    workload(ctx, R, d, ["grow", "pigrow", "pt"], ["tree", "ge", "dsge", "stack"], 2, 2)
+                    workload(ctx, R, d, ["grow", "full", "pigrow", "pt"], ["tree", "ge", "sge", "dsge", "stack"], 2, 2)
                 ctx.snapshot_grammar()
             # grammar-level operations of the library itself must not disturb the grammar object either
             try:
